@@ -235,15 +235,26 @@ def check_valid(sym: Symbol, s: str) -> Tuple[bool, Optional[str]]:
 
     base = 10 if sym.orig_type == INT else 16
     try:
-        int(s, base)
+        val_int = int(s, base)
     except ValueError:
         return False, f"'{s}' is a malformed {TYPE_TO_STR[sym.orig_type]} value"
+
+    if sym.orig_type == HEX and val_int < 0:
+        # Symbol.set_value() does not accept negative hex values
+        return False, f"'{s}' is negative, which is not allowed for a hex value"
+
+    def bound(bound_s: str) -> int:
+        # A malformed (e.g. empty) bound counts as 0, like in Symbol.str_value
+        try:
+            return int(bound_s, base)
+        except ValueError:
+            return 0
 
     for low_sym, high_sym, cond in sym.ranges:
         if expr_value(cond):
             low_s = low_sym.str_value
             high_s = high_sym.str_value
-            if not int(low_s, base) <= int(s, base) <= int(high_s, base):
+            if not bound(low_s) <= val_int <= bound(high_s):
                 return False, f"{s} is outside the range {low_s} to {high_s}"
             break
 
